@@ -771,7 +771,7 @@ JavaExprGen.tla / TraceJavaExpr.tla + gen/javaexpr.py (builtin expressions: flat
   Unchanged tree: exit 0 with VERIF_SEED = default, 1, 2, 3.  New findings of the unchanged tree (all Java route, reproduced by hand with
   gen/c12_repro/builtins_on_java.as): BIntLength of negatives, BIntMod with negative modulus (exception) / negative dividend (residue vs
   remainder, root = C11 finding), unsigned Byte as signed byte, SIntPlusMod / SIntTimesMod overflow in 32 bits; candidate patches
-  hooks/candidate-C12-*.diff applied together in a worktree make all of them disappear except the BIntMod residue/remainder disagreement.
+  hooks/fix-C12-*.diff applied together in a worktree make all of them disappear except the BIntMod residue/remainder disagreement.
   Timing pitfalls: at -Q5+ the printing helpers are inlined into every case, so the functions of an expression program hold 6 cases
   (40 below); a literal program carries at most ~27 printed values (javac: code too large).  INSTANCE Builtins: zero-arity
   definitions of an instantiated module are re-evaluated on every use (Sig took 60 ms): tabulate them in the instantiating module.
